@@ -65,7 +65,59 @@ def convex_subset(rng: random.Random, nodes: list[dict]) -> list[int]:
     return sorted(S)
 
 
+def gen_signal_cut(rng: random.Random) -> dict:
+    """The cut runs along an ORDERING edge: the producer of a signal is wrapped, the node waiting for it stays outside."""
+    return {"kind": "signal_cut", "depth": rng.choice([1, 1, 2]), "with_data_edge": rng.random() < 0.5, "async": [gen.gen_async_cfg(rng, allow_hold=False)]}
+
+
+def run_signal_cut(doc: dict) -> dict:
+    res = empty_result()
+    p_node = {"kind": "fn", "name": "sp", "params": [{"name": "sx"}], "outs": ["spy"], "emit": ["ssg"]}
+    w_params = [{"name": "sz"}] + ([{"name": "spy"}] if doc.get("with_data_edge") else [])
+    w_node = {"kind": "fn", "name": "sw", "params": w_params, "outs": ["swq"], "wait_for": ["ssg"]}
+    flat = {"name": "top", "nodes": [p_node, w_node], "order": [0, 1]}
+    inner: dict = {"kind": "graph", "name": "SG0", "graph": {"name": "SG0", "nodes": [copy.deepcopy(p_node)], "order": [0]}}
+    if doc.get("depth") == 2:
+        inner = {"kind": "graph", "name": "SG1", "graph": {"name": "SG1", "nodes": [inner], "order": [0]}}
+    nested = {"name": "top", "nodes": [inner, copy.deepcopy(w_node)], "order": [0, 1]}
+    vals = {"sx": 3, "sz": 4}
+    viol: list = []
+    rts = []
+    try:
+        for i, (mode, cfg) in enumerate([("sync", None)] + [("async", c) for c in doc["async"]]):
+            wf = run_world(flat, dict(vals), mode=mode, cfg=cfg)
+            try:
+                wn = run_world(nested, dict(vals), mode=mode, cfg=cfg)
+            except BuildError:
+                res["discard"] = "nested_variant_rejected_by_constructor"
+                return res
+            rts += [wf["rt"], wn["rt"]]
+            res["runs"] += 2
+            fo, no = wf["out"], wn["out"]
+            tag = f"{mode}{i}[signal_cut]"
+            if fo["status"] != "completed":
+                res["discard"] = "flat_signal_program_not_completed"
+                return res
+            if no["status"] == "completed" and "swq" in (fo["values"] or {}) and "swq" not in (no["values"] or {}) and not [h for h in enters(wn["rt"]) if h["n"] == "sw"]:
+                viol.append((f"{tag}:signal_emitted_inside_nested_graph_does_not_reach_outer_waiter", {"flat": fo["values"], "nested": no["values"], "depth": doc.get("depth")}))
+            elif no["status"] != fo["status"] or canon(no["values"]) != canon(fo["values"]):
+                viol.append((f"{tag}:values_differ_from_flat", {"flat": [fo["status"], fo["values"]], "nested": [no["status"], no["values"], no["error"]]}))
+    except BuildError:
+        res["discard"] = "build_error"
+        return res
+    res["violations"] = viol
+    res["nontrivial"] = True
+    res["stats"]["signal_cut_cases"] = 1
+    res["shape"] = digest(["signal_cut", doc.get("depth"), doc.get("with_data_edge")], 8)
+    res["sched"] = "-"
+    res["sig"] = res["shape"]
+    res["hdigest"] = hist_digest(rts)
+    return res
+
+
 def gen_case(rng: random.Random, tier: str) -> dict:
+    if rng.random() < 0.03:
+        return gen_signal_cut(rng)
     g = gen.gen_dag(rng, max_nodes=10 if tier == "thorough" else 8, p_edge_default=0.08)
     inp = gen.gen_inputs(rng, g)
     if rng.random() < 0.25:
@@ -218,6 +270,8 @@ def _invocation_multiset(rt) -> list:
 
 
 def run_case(doc: dict) -> dict:
+    if doc.get("kind") == "signal_cut":
+        return run_signal_cut(doc)
     res = empty_result()
     g = doc["graph"]
     inp = doc["inputs"]
@@ -335,6 +389,12 @@ def run_case(doc: dict) -> dict:
 
 
 def shrink_candidates(doc: dict):
+    if doc.get("kind") == "signal_cut":
+        if doc.get("depth") == 2:
+            yield dict(doc, depth=1)
+        if doc.get("with_data_edge"):
+            yield dict(doc, with_data_edge=False)
+        return
     g = doc["graph"]
     n = len(g["nodes"])
     for i in reversed(range(n)):
@@ -402,6 +462,8 @@ def signature(doc: dict, cls: str, detail) -> str:
 
 
 def sample_repr(doc: dict, res: dict):
+    if doc.get("kind") == "signal_cut":
+        return {"template": "producer of a signal wrapped, waiter outside", "depth": doc.get("depth"), "with_data_edge": doc.get("with_data_edge")}
     return {"nodes": [[n["name"], [p["name"] + ("=d" if "default" in p else "") for p in n["params"]], n["outs"]] for n in doc["graph"]["nodes"]],
             "cuts(outer->inner)": doc["cuts"], "rename_style": doc["rename"]["style"], "inner_select": doc["inner_select"], "bind_inner": doc["bind_inner"], "inputs": doc["inputs"]}
 
